@@ -104,6 +104,7 @@ func genRoute(check string) func(r *Rng, tier string, p *Plan) {
 				p.Add(op)
 			}
 		}
+		p.N["api_slash"] = int64(PickOf(r, 0, 0, 0, 1))
 		p.SortOps()
 	}
 }
